@@ -223,6 +223,10 @@ def run_tlc(module, cfg, workers=None, simulate=None, depth=None, seed=None, tim
             m = re.search(r"(\d+) states generated, (\d+) distinct states found", line)
             if m:
                 res.generated, res.distinct = int(m.group(1)), int(m.group(2))
+            m = re.search(r"The number of states generated: (\d+)", line)
+            if m:
+                res.generated = int(m.group(1))
+                res.distinct = max(res.distinct, int(m.group(1)))
             m = re.search(r"depth of the complete state graph search is (\d+)", line)
             if m:
                 res.depth = int(m.group(1))
